@@ -118,6 +118,9 @@ Inductive ev :=
 | EObs (q : list (list id * list id)).    (* model input only: order/marks of the collections such allocations trigger *)
 
 
+(* the ways a program ends *)
+Inductive route := RReturn | RExit | RExitInBlock | RThrow | RExitStatus | RExitAfterThread.
+
 Section Machine.
   Variables rem_fix sweep_fix defer_fix : bool.
 
@@ -271,6 +274,19 @@ Section Machine.
     if dangling s' then set_bad s' else s'.
 
   Definition run (h : list ev) : st := fold_left step h init.
+
+  (* Program exit.  The `main` wrapper of Cello.h creates the collector and arranges its teardown:
+       reg_atexit  — atexit(Cello_Exit) is registered before Cello_Main runs (every way of ending the
+                     process that runs exit handlers tears the collector down);
+       call_after  — Cello_Exit() is called after Cello_Main has returned (only that route).
+     tools/genx_life.py reads both off the macro text.  Every route of the model ends the process
+     through exit(): returning from main, exit() from a nested call, exit() inside a with/try block,
+     an uncaught throw (Exception_Error calls exit(EXIT_FAILURE)), exit with a non-zero status,
+     exit after a worker thread has come and gone. *)
+  Definition returns (r : route) : bool := match r with RReturn => true | _ => false end.
+  Definition terminate (reg_atexit call_after : bool) (r : route) (order : list id) (s : st) : st :=
+    let s1 := if call_after && returns r then step s (ETeardown order) else s in
+    if reg_atexit then step s1 (ETeardown order) else s1.
 
   (* Hypotheses about stop windows (finding F2).  While the collector is stopped:
      alloc_ok  — no managed/root allocation (it would never be registered);
